@@ -306,5 +306,165 @@ theorem UpOK.children {t : Patricia V} {i bp : Nat} {l r : PT V} {b : Nat} {n : 
       · obtain ⟨nd, h1, h2⟩ := h x (by simp [leafIdx, hx]) (by simp [inners, hxi, hxl, hxr])
         exact ⟨nd, h1, by omega⟩
 
+/-- seen from a node with a smaller bit position a represented tree is still represented, except that a leaf
+has to satisfy the stronger condition -/
+theorem Rep.lowerX {t : Patricia V} (ex : Nat) {T : PT V} {b b' : Nat} {p : Option Nat} (h : Rep t b p T) (hbb : b' ≤ b)
+    (hleaf : ∀ i k v, T = .leaf i k v → i = ex ∨ ∃ n, t.nodes[i]? = some n ∧ n.bp ≤ b') : RepX ex t b' p T := by
+  cases T with
+  | leaf i k v =>
+    obtain ⟨hp, n, hn, _, hk, hv⟩ := h
+    refine ⟨hp, n, hn, ?_, hk, hv⟩
+    rcases hleaf i k v rfl with h1 | ⟨n', hn', h2⟩
+    · exact .inl h1
+    · rw [hn] at hn'; cases hn'; exact .inr h2
+  | inner i bp l r =>
+    obtain ⟨hp, n, hn, hbp, hb, hl, hr⟩ := h
+    exact ⟨hp, n, hn, hbp, by omega, hl.toX ex, hr.toX ex⟩
+
+/-- the store after the link found by `cutAt` has been redirected represents the contracted tree (the bit-position
+condition being waived for threads to the contracted node, which `remove` is about to move) -/
+theorem contract_rep {t : Patricia V} (dir : Nat → Bool) (T : PT V) :
+    ∀ (b : Nat) (p : Option Nat) (pi : Nat) (pn : PNode V) (sd : Bool) (rp0 : Nat) (T1 : PT V),
+      Rep t b p T → t.nodes[pi]? = some pn → pn.bp = b →
+      UpOK t T b → SelfBelow T → (leafIdx T).Nodup → (inners T).Nodup → pi ∉ inners T →
+      contract T dir = some T1 →
+      RepX (findEnd T rp0 pi dir).2.1 (setLink t (cutAt T pi sd dir).1 (cutAt T pi sd dir).2.1 (some (cutAt T pi sd dir).2.2)) b
+        (if (cutAt T pi sd dir).1 = pi then some (cutAt T pi sd dir).2.2 else p) T1 ∧
+      (setLink t (cutAt T pi sd dir).1 (cutAt T pi sd dir).2.1 (some (cutAt T pi sd dir).2.2)).nodes[pi]? =
+        some (if (cutAt T pi sd dir).1 = pi then relink pn sd (some (cutAt T pi sd dir).2.2) else pn) := by
+  induction T with
+  | leaf i k v => intro b p pi pn sd rp0 T1 _ _ _ _ _ _ _ _ hct; simp [contract] at hct
+  | inner i bp l r ihl ihr =>
+    intro b p pi pn sd rp0 T1 hT hpn hpb hup hsb hndl hndi hni hct
+    have hT0 := hT
+    obtain ⟨hp, n, hn, hbp, hb, hl, hr⟩ := hT
+    subst hbp
+    obtain ⟨hupl, hupr⟩ := hup.children hn rfl hb hsb hndl
+    have hsb0 := hsb
+    obtain ⟨hself, hsl, hsr⟩ := hsb
+    have hndl0 := hndl
+    simp only [leafIdx, List.nodup_append] at hndl
+    obtain ⟨hnll, hnlr, _⟩ := hndl
+    simp only [inners, List.nodup_cons, List.mem_append, List.nodup_append, not_or, List.mem_cons] at hndi hni
+    obtain ⟨⟨hil, hir⟩, hnil, hnir, hdis⟩ := hndi
+    -- the stopping case: the path child is a leaf, `other` is re-hung below `pi`
+    have hstop : ∀ (other : PT V) (op : Option Nat), Rep t n.bp op other →
+        (∀ x k v, other = .leaf x k v → x = i ∨ (x ∈ leafIdx (.inner i n.bp l r) ∧ x ∉ inners (.inner i n.bp l r))) →
+        pi ∉ inners other →
+        RepX i (setLink t pi sd (some (idx other))) b (some (idx other)) other ∧
+        (setLink t pi sd (some (idx other))).nodes[pi]? = some (relink pn sd (some (idx other))) := by
+      intro other op hother hleaf hnio
+      constructor
+      · have hop := hother.idx_eq
+        rw [hop] at hother
+        apply RepX.frame _ (frame_setLink t pi sd _ other hnio)
+        apply hother.lowerX i (by omega)
+        intro x k v hx
+        rcases hleaf x k v hx with h1 | ⟨h1, h2⟩
+        · exact .inl h1
+        · exact .inr (hup x h1 h2)
+      · rw [setLink_nodes]; simp [hpn]
+    simp only [contract] at hct
+    simp only [cutAt, findEnd]
+    by_cases hd : dir n.bp = true
+    case neg =>
+      -- the path goes left
+      simp only [hd, Bool.false_eq_true, if_false] at hct ⊢
+      cases l with
+      | leaf j k v =>
+        simp only [contract] at hct
+        cases hct
+        simp only [if_true, findEnd]
+        apply hstop r n.right hr
+        · intro x k' v' hx
+          subst hx
+          by_cases hxi : x = i
+          · exact .inl hxi
+          · exact .inr ⟨by simp [leafIdx], by simp [inners, hxi]⟩
+        · exact hni.2.2
+      | inner j bp' l' r' =>
+        have hsome : ∃ l1, contract (.inner j bp' l' r') dir = some l1 := by
+          cases hc : contract (.inner j bp' l' r') dir with
+          | none => obtain ⟨_, _, _, h⟩ := (contract_none_iff _ dir).mp hc; cases h
+          | some l1 => exact ⟨l1, rfl⟩
+        obtain ⟨l1, hl1⟩ := hsome
+        rw [hl1] at hct
+        cases hct
+        obtain ⟨ih1, ih2⟩ := ihl n.bp n.left i n false pi l1 hl hn rfl hupl hsl hnll hnil hil hl1
+        have hprev := cutAt_prev (.inner j bp' l' r') i false dir
+        have hne : (cutAt (.inner j bp' l' r') i false dir).1 ≠ pi := by
+          rcases hprev with h | h
+          · rw [h.1]; exact fun e => hni.1 e.symm
+          · exact fun e => hni.2.1 (e ▸ h)
+        have hnotr : (cutAt (.inner j bp' l' r') i false dir).1 ∉ inners r := by
+          rcases hprev with h | h
+          · rw [h.1]; exact hir
+          · exact fun e => hdis _ h _ e rfl
+        simp only [hne, if_false]
+        constructor
+        · refine ⟨hp, _, ih2, ?_, hb, ?_, ?_⟩
+          · split <;> simp
+          · have : (if (cutAt (.inner j bp' l' r') i false dir).1 = i
+                then relink n false (some (cutAt (.inner j bp' l' r') i false dir).2.2) else n).left
+                = (if (cutAt (.inner j bp' l' r') i false dir).1 = i then some (cutAt (.inner j bp' l' r') i false dir).2.2 else n.left) := by
+              split <;> simp [relink]
+            rw [this]
+            exact ih1
+          · have h1 : (if (cutAt (.inner j bp' l' r') i false dir).1 = i
+                then relink n false (some (cutAt (.inner j bp' l' r') i false dir).2.2) else n).right = n.right := by
+              split <;> simp [relink]
+            rw [h1]
+            exact (hr.toX _).frame (frame_setLink t _ _ _ r hnotr)
+        · rw [setLink_nodes]; simp [hne, hpn]
+    case pos =>
+      -- the path goes right
+      simp only [hd, if_true] at hct ⊢
+      cases r with
+      | leaf j k v =>
+        simp only [contract] at hct
+        cases hct
+        simp only [if_true, findEnd]
+        apply hstop l n.left hl
+        · intro x k' v' hx
+          subst hx
+          by_cases hxi : x = i
+          · exact .inl hxi
+          · exact .inr ⟨by simp [leafIdx], by simp [inners, hxi]⟩
+        · exact hni.2.1
+      | inner j bp' l' r' =>
+        have hsome : ∃ r1, contract (.inner j bp' l' r') dir = some r1 := by
+          cases hc : contract (.inner j bp' l' r') dir with
+          | none => obtain ⟨_, _, _, h⟩ := (contract_none_iff _ dir).mp hc; cases h
+          | some r1 => exact ⟨r1, rfl⟩
+        obtain ⟨r1, hr1⟩ := hsome
+        rw [hr1] at hct
+        cases hct
+        obtain ⟨ih1, ih2⟩ := ihr n.bp n.right i n true pi r1 hr hn rfl hupr hsr hnlr hnir hir hr1
+        have hprev := cutAt_prev (.inner j bp' l' r') i true dir
+        have hne : (cutAt (.inner j bp' l' r') i true dir).1 ≠ pi := by
+          rcases hprev with h | h
+          · rw [h.1]; exact fun e => hni.1 e.symm
+          · exact fun e => hni.2.2 (e ▸ h)
+        have hnotl : (cutAt (.inner j bp' l' r') i true dir).1 ∉ inners l := by
+          rcases hprev with h | h
+          · rw [h.1]; exact hil
+          · exact fun e => hdis _ e _ h rfl
+        simp only [hne, if_false]
+        constructor
+        · refine ⟨hp, _, ih2, ?_, hb, ?_, ?_⟩
+          · split <;> simp
+          · have h1 : (if (cutAt (.inner j bp' l' r') i true dir).1 = i
+                then relink n true (some (cutAt (.inner j bp' l' r') i true dir).2.2) else n).left = n.left := by
+              split <;> simp [relink]
+            rw [h1]
+            exact (hl.toX _).frame (frame_setLink t _ _ _ l hnotl)
+          · have : (if (cutAt (.inner j bp' l' r') i true dir).1 = i
+                then relink n true (some (cutAt (.inner j bp' l' r') i true dir).2.2) else n).right
+                = (if (cutAt (.inner j bp' l' r') i true dir).1 = i then some (cutAt (.inner j bp' l' r') i true dir).2.2 else n.right) := by
+              split <;> simp [relink]
+            rw [this]
+            exact ih1
+        · rw [setLink_nodes]; simp [hne, hpn]
+
 end Patricia
 end AlgoVerif.C06
